@@ -59,9 +59,10 @@ pub fn run(ctx: &Ctx) -> i32 {
     let mut trees = check::draw(ctx.seed, 0xC13, n, 420);
     let mut panics: Vec<(usize, Case)> = Vec::new();
     let mut per_op = vec![0u64; faults::N_OPS + 1];
-    for i in 0..trees.len() {
-        let dna = trees[i].current();
-        let c = eval(&dna);
+    let dnas: Vec<Vec<u16>> = trees.iter().map(|t| t.current()).collect();
+    use rayon::prelude::*;
+    let results: Vec<Case> = dnas.par_iter().map(|d| eval(d)).collect();
+    for (i, c) in results.into_iter().enumerate() {
         rep.evaluations += 1;
         if !c.base_ok {
             rep.count("base_not_accepted(skipped)", 1);
